@@ -105,8 +105,13 @@ def authorisedFor (pre : State) (op : Op) (d : Bytes) : Bool :=
   | .terminate _ _ _ dd sv sd => dd = d && sv && ownerOrRw sd
   | .renew _ _ sv sd _ _ data => data.contains d && sv && ownerOnly sd
   | .perm _ _ ow dd _ _ sv => dd = d && sv && ownerOnly ow
-  -- consequences of an accepted request, scheduled expiry and automatic rollback are not requests
-  | .complete .. => true
+  -- a completion applies an accepted request to the model: the DID that signed the order must still
+  -- be the owner or hold read-write access when it is applied (UpdateMeta re-checks it)
+  | .complete _ _ oid _ _ _ =>
+    (match pre.getOrder oid with
+     | some o => if o.dataId = d then ownerOrRw o.owner else true
+     | none => true)
+  -- scheduled expiry and automatic rollback are not requests
   | .cancel .. => true
   | .end_ => true
   | _ => false
@@ -290,7 +295,7 @@ def checkStep (e : Env) (pre : Sys) (op : Op) (res : Res) (post : Sys) : List (S
    | .binding m, .ok => if m.proofNamesDid then [] else [("C17", "clause=proofNamesDid cls=unbound-message")]
    | _, _ => []) ++
   -- C03/C01: a package-variable residue is created by this step (it outlives the transaction)
-  (if pre.global = 0 && post.global ≠ 0 then [("C03", s!"clause=globalResidue cls={match res with | .ok => "ok-tx" | _ => "failed-tx"}")] else []) ++
+  (if pre.global = 0 && post.global ≠ 0 then [("C03", s!"clause=globalResidue cls={match op, res with | .sim _, _ => "simulated-tx" | _, .ok => "ok-tx" | _, _ => "failed-tx"}")] else []) ++
   -- C12: every unfinished order has a pending re-examination after each block; the class names the
   -- known stop condition `height + timeout >= createdAt + duration` of HandleTimeoutOrder (finding F15)
   (if isBlockEnd op && res = .ok then
@@ -343,6 +348,29 @@ def checkStep (e : Env) (pre : Sys) (op : Op) (res : Res) (post : Sys) : List (S
          | none => [("C08", "clause=rewardCounter cls=none rec=pool-gone")]))
    | .genesis => []
    | _ => if minted ≠ 0 then [("C08", s!"clause=mintOutsideBegin cls=none rec={minted}")] else []) ++
+  -- C08: a claim pays out the whole-coin part of the settled reward: what stays recorded is a fraction
+  (match op, res with
+   | .claim c, .ok =>
+     (match post.st.getPledge c with
+      | some p => if 0 ≤ p.reward && p.reward < precision then [] else [("C08", s!"clause=claimLeavesFraction cls=none rec=sp{c}:{p.reward}")]
+      | none => [])
+   | _, _ => []) ++
+  -- C04: what a termination, cancellation or force-push settlement pays back to a client never exceeds
+  -- what the orders that end in that step were charged
+  (let refundOps := match op with
+     | .terminate .. => true
+     | .cancel .. => true
+     | .complete .. => true
+     | _ => false
+   if res = .ok && refundOps then
+     let ended := pre.st.orders.filter (fun o => (post.st.getOrder o.id).isNone)
+     let payees := (ended.filterMap (fun o => pre.st.paymentAddress (if o.paymentDid ≠ 0 && o.status ≠ OrderCompleted then o.paymentDid else o.owner))).eraseDups
+     payees.filterMap (fun a =>
+       let charged := sumInt ((ended.filter (fun o =>
+         pre.st.paymentAddress o.owner = some a || pre.st.paymentAddress o.paymentDid = some a)).map (·.amount))
+       let got := post.st.bal a - pre.st.bal a
+       if got ≤ charged then none else some ("C04", s!"clause=refundWithinCharge cls=none rec=acct{a}:refund={got},charged={charged}"))
+   else []) ++
   -- C15: providers newly given a shard of an order are distinct from one another and from every
   -- provider that already holds or timed out on a shard of it, were eligible when chosen, and are
   -- not more than requested
